@@ -109,13 +109,6 @@ theorem task_step {c : Config} {s s' : State} {l : Label} (hl : l.isMain = false
           exact ⟨rfl, rfl, hm⟩
       · cases hs
     · cases hs
-  | vanish i =>
-    simp only [step] at hs
-    split at hs
-    · rename_i h
-      cases hs
-      refine ⟨rfl, rfl, taskMono_upd _ _ _ ?_ ?_ ?_ ?_⟩ <;> simp [h, St.isTerminal, St.isActive]
-    · cases hs
 
 /-! ### structural invariant and serial discipline -/
 
@@ -157,7 +150,7 @@ theorem Inv.step {c : Config} {s s' : State} {l : Label} (h : Inv c s) (hs : ste
     exact h.task a b d
   | true =>
     cases l with
-    | acquireStart i | acquireSkip i | finish i r | vanish i => simp [Label.isMain] at hl
+    | acquireStart i | acquireSkip i | finish i r => simp [Label.isMain] at hl
     | launch =>
       simp only [MesonModel.Sched.step] at hs
       split at hs
@@ -419,16 +412,6 @@ theorem JobInv.step {c : Config} {s s' : State} {l : Label} (hi : Inv c s) (h : 
           simp only
           omega
       · cases hs
-    · cases hs
-  | vanish i =>
-    simp only [MesonModel.Sched.step] at hs
-    split at hs
-    · rename_i hg
-      cases hs
-      have := cnt_upd s.st i .vanished (lt_of_launched i (by simp [hg]))
-      simp [hg, St.isRunning] at this
-      simp only
-      omega
     · cases hs
 
 theorem Exec.jobInv {c : Config} {tr : List Label} {s : State} (h : Exec c tr s) : JobInv c s := by
